@@ -5,8 +5,10 @@ package repro
 
 import (
 	"bytes"
+	"fmt"
 	"io"
 	"math/rand/v2"
+	"sort"
 	"sync"
 	"testing"
 
@@ -26,11 +28,11 @@ func brokenFreeListDocs(t *testing.T) map[string][]byte {
 	out := map[string][]byte{}
 	rng := rand.New(rand.NewPCG(40, 40))
 	F := pdfgen.Force
-	for _, kind := range []string{"valid", "hybrid-hidden-free", "head-missing", "head-generation-0", "head-next-0-dangling", "chain-ends-elsewhere",
+	for _, kind := range []string{"valid", "hybrid-hidden-free", "head-missing", "head-missing-empty-list", "head-generation-0", "head-next-0-dangling", "chain-ends-elsewhere",
 		"free-links-in-use", "head-links-in-use", "free-generation-65535", "free-self-link"} {
 		spec := pdfgen.RandomSpec(rng, 3)
 		spec.Pages, spec.Signatures, spec.Updates = 3, 0, 0
-		spec.Annotations, spec.Unreferenced = true, true
+		spec.Annotations, spec.Unreferenced = true, kind != "head-missing-empty-list"
 		spec.Write.Encrypter, spec.Write.HolesAsGaps = nil, false
 		spec.Write.XRef, spec.Write.ObjStm = pdfgen.XRefTable, false
 		if kind == "hybrid-hidden-free" {
@@ -38,15 +40,15 @@ func brokenFreeListDocs(t *testing.T) map[string][]byte {
 		}
 		bt := pdfgen.Build(spec)
 		d := bt.Doc.Clone()
-		var holes []int
-		for h := 0; h < 3; h++ {
-			holes = append(holes, d.Alloc().Num)
+		holes := []int{0, 0, 0}
+		for h := 0; h < 3 && kind != "head-missing-empty-list"; h++ {
+			holes[h] = d.Alloc().Num
 			d.Add(pdfgen.D("VerifJunk", h))
 		}
 		inUse := int64(bt.Truth.Objs.PageObjs[0])
 		e := map[pdfgen.XRefKey]pdfgen.XRefEntryOverride{}
 		switch kind {
-		case "head-missing":
+		case "head-missing", "head-missing-empty-list":
 			e[pdfgen.XRefKey{Rev: -1, Num: 0}] = pdfgen.XRefEntryOverride{Drop: true}
 		case "head-generation-0":
 			e[pdfgen.XRefKey{Rev: -1, Num: 0}] = pdfgen.XRefEntryOverride{F3: F(0)}
@@ -78,7 +80,7 @@ func brokenFreeListDocs(t *testing.T) map[string][]byte {
 }
 
 // TestFreeListSharedZero: 16 goroutines read / optimize / remove pages / remove annotations of
-// independent documents whose free lists need every repair pdfcpu knows, 40 times each, under the race
+// independent documents whose free lists need every repair pdfcpu knows, 12 times each, under the race
 // detector; every result must equal the result of the same call made alone before.
 func TestFreeListSharedZero(t *testing.T) {
 	api.DisableConfigDir()
@@ -93,19 +95,34 @@ func TestFreeListSharedZero(t *testing.T) {
 			if err != nil {
 				return nil, err
 			}
-			// the free list as the context sees it
+			// the free list as the context sees it: the SET of linked object numbers (the order of the
+			// entries pdfcpu links in by itself follows Go's map iteration order and differs between
+			// two runs alone already) and how the chain ends
 			var w bytes.Buffer
-			for n := 0; ; {
+			seen := map[int]bool{}
+			n, end := 0, "ends-at-0"
+			for {
 				e, ok := ctx.Table[n]
 				if !ok || e == nil || !e.Free || e.Offset == nil {
+					end = fmt.Sprintf("broken-at-%d", n)
 					break
 				}
-				w.WriteString(string(rune('0'+n%10)) + ">")
+				if seen[n] {
+					end = fmt.Sprintf("loops-at-%d", n)
+					break
+				}
+				seen[n] = true
 				n = int(*e.Offset)
-				if n == 0 || w.Len() > 400 {
+				if n == 0 {
 					break
 				}
 			}
+			var nums []int
+			for k := range seen {
+				nums = append(nums, k)
+			}
+			sort.Ints(nums)
+			fmt.Fprintf(&w, "%v %s", nums, end)
 			return w.Bytes(), nil
 		}},
 		{"optimize", func(b []byte) ([]byte, error) {
@@ -125,12 +142,11 @@ func TestFreeListSharedZero(t *testing.T) {
 		}},
 		{"validate", func(b []byte) ([]byte, error) { return nil, api.Validate(bytes.NewReader(b), conf()) }},
 	}
-	mask := func(b []byte) string { // /ID and dates differ from run to run
-		s := string(b)
-		if i := bytes.Index(b, []byte("/ID")); i >= 0 {
-			s = s[:i]
+	mask := func(b []byte) string { // outputs: only "a PDF came out" (object numbering follows map order)
+		if bytes.HasPrefix(b, []byte("%PDF-")) {
+			return "pdf"
 		}
-		return s[:min(len(s), 200)] + "#" + string(rune(len(b)/64))
+		return string(b)
 	}
 	type key struct{ kind, op string }
 	alone := map[key]string{}
@@ -157,7 +173,7 @@ func TestFreeListSharedZero(t *testing.T) {
 		go func(g int) {
 			defer wg.Done()
 			r := rand.New(rand.NewPCG(uint64(g), 7))
-			for i := 0; i < 40; i++ {
+			for i := 0; i < 12; i++ {
 				kind, o := kinds[r.IntN(len(kinds))], ops[r.IntN(len(ops))]
 				out, err := o.f(append([]byte(nil), docs[kind]...))
 				got := "ok:" + mask(out)
@@ -177,4 +193,31 @@ func TestFreeListSharedZero(t *testing.T) {
 		t.Errorf("%s on %s: concurrent %.80q, alone %.80q", k.op, k.kind, got, alone[k])
 	}
 	_ = io.Discard
+}
+
+// TestSharedZeroCells states the fact the reviewer pointed at: which free entries of two INDEPENDENT
+// contexts (two reads of the same bytes) hold the very same *int64 as Offset.
+func TestSharedZeroCells(t *testing.T) {
+	api.DisableConfigDir()
+	for kind, b := range brokenFreeListDocs(t) {
+		c1, err1 := api.ReadContext(bytes.NewReader(b), conf())
+		c2, err2 := api.ReadContext(bytes.NewReader(b), conf())
+		if err1 != nil || err2 != nil {
+			t.Logf("%-24s unreadable: %v", kind, err1)
+			continue
+		}
+		var shared []int
+		for n, e1 := range c1.Table {
+			if e2 := c2.Table[n]; e1 != nil && e2 != nil && e1.Offset != nil && e1.Offset == e2.Offset {
+				shared = append(shared, n)
+			}
+		}
+		sort.Ints(shared)
+		t.Logf("%-24s entries whose Offset cell is shared by both contexts: %v (value %d)", kind, shared, func() int64 {
+			if len(shared) > 0 {
+				return *c1.Table[shared[0]].Offset
+			}
+			return -1
+		}())
+	}
 }
